@@ -10,7 +10,7 @@ import (
 func TestProp(t *testing.T) {
 	pbt.Main(t, pbt.Spec{
 		ID: "C07",
-		Rule: "histories of 8-60 operations (Create with sizes from 0 to 2^64-1 incl. exact-fit and capacity+-k, write/read through handles, Open, Stat, MarkComplete, Delete, Ban/UnbanEviction, Set/Get/Delete/List/WriteAtMetadata with 2 movable + 1 non-movable type, Clean(target,respectBan), Create of an over-long name that fails in the file system) over 4-8 hex keys, capacity 16-64 bytes, shard length 0-2, RebootIncompleteBlobs on/off, every per-key call through a drawn view {unscoped, ScopeComplete, ScopeIncomplete}; the generator biases keys with a predicted model state. " +
+		Rule: "histories of 1-60 operations (Create with sizes from 0 to 2^64-1 incl. exact-fit and capacity+-k, write/read through handles, Open, Stat, MarkComplete, Delete, Ban/UnbanEviction, Set/Get/Delete/List/WriteAtMetadata with 2 movable + 1 non-movable type, Clean(target,respectBan), Create of an over-long name that fails in the file system) over 4-8 hex keys, capacity 16-64 bytes, shard length 0-2, RebootIncompleteBlobs on/off, every per-key call through a drawn view {unscoped, ScopeComplete, ScopeIncomplete}; the generator biases keys with a predicted model state. " +
 			"Each call's result class (ok / not-exist / out-of-scope / exists / error) and value are compared with a reference model (reserved size = sum of Create sizes, LRU list of complete unbanned blobs: pushed on completion and un-ban, moved on Open, left on ban/delete/eviction; Create evicts the shortest LRU prefix that makes room, a refused Create may only have removed an LRU prefix; Clean judged by a validity predicate over the documented class order); after every step List and Has through all three views, Stat sizes, all metadata values, ListMetadata and the bytes of blobs outside the LRU list are compared; at the end a drain admits a probe filling the free space exactly (must evict nothing) and a probe one byte larger (must evict exactly the model's next victims) until nothing evictable is left (then it must be refused), which checks the exact reserved size and the whole LRU order. " +
 			"Non-trivial = at least one eviction (by Create, Clean or the drain) happened while the LRU order differed from the completion order because of an Open, a ban or an un-ban; distinct by case hash.",
 		Assumptions: []string{
